@@ -3,7 +3,7 @@
    (the harness maps every physical value to its index in a per-case value table). *)
 From Coq Require Import NArith ZArith List String Bool.
 From Pq Require Import Base.Bytes Format.Nested Impl.CAssemble Impl.CAssembleFixed Proofs.CAssembleProofs
-  Proofs.CAssembleV2Proofs Extract.Sx.
+  Proofs.CAssembleV2Proofs Proofs.PyDictProofs Extract.Sx.
 Import ListNotations.
 Open Scope string_scope.
 
@@ -197,9 +197,31 @@ Definition h_nested_levels (a : list sx) : sx :=
   | _ => err "arity"
   end.
 
+(* read_col as it is now: the leading continuation of a page appended in Python, then _assemble_objects *)
+Definition h_run_v1_py (a : list sx) : sx :=
+  match a with
+  | [ro; eo; n; pages] =>
+    match as_bool ro, as_bool eo, as_nat n, as_list_of as_page pages with
+    | Some ro, Some eo, Some n, Some pages => s_ares (slist s_row) (run_v1_py (mkShape ro eo) n pages)
+    | _, _, _, _ => err "args"
+    end
+  | _ => err "arity"
+  end.
+
+(* (py_dict ((k v) ...)) -> items of dict(pairs) in iteration order; keys and values are naturals *)
+Definition h_py_dict (a : list sx) : sx :=
+  match a with
+  | [ps] =>
+    match as_list_of (as_pair as_N as_N) ps with
+    | Some ps => slist (fun kv : N * N => SL [sN (fst kv); sN (snd kv)]) (py_dict N N N.eqb ps)
+    | None => err "args"
+    end
+  | _ => err "arity"
+  end.
+
 Definition table : list (string * handler) :=
   [("shred", h_shred); ("assemble_spec", h_assemble_spec); ("assemble_page", h_assemble_page);
    ("run_v1", h_run_v1); ("run_v2", h_run_v2); ("sch", h_sch); ("shape_levels", h_shape_levels);
    ("zip_maps", h_zip_maps); ("split_guard", h_split_guard); ("v2_branch", h_v2_branch);
    ("assemble_page_fx", h_assemble_page_fx); ("run_v1_fx", h_run_v1_fx); ("v2_guard", h_v2_guard);
-   ("nested_levels", h_nested_levels)].
+   ("nested_levels", h_nested_levels); ("run_v1_py", h_run_v1_py); ("py_dict", h_py_dict)].
